@@ -1437,3 +1437,76 @@ l2_harness! {
     #[kani::unwind(5)]
     fn l2_active_idle_log_b45450() { use_baud(crate::Baudrate::B45450); step_active_idle(true) }
 }
+
+// ==========================================================================================
+// Byte-level end-to-end steps (thorough tier): the same poll() over the byte-level PHY, i.e.
+// with the real receive helpers and the real decoder inside the step.  No detailed oracle - the
+// universal obligations, totality and the invariant - as an independent check of the
+// decoder -> helpers -> station composition the telegram-level harnesses rely on.
+// ==========================================================================================
+
+impl<const RXN: usize, const TXN: usize> PhyView for KPhy<RXN, TXN> {
+    fn v_pending(&self) -> usize {
+        self.pending()
+    }
+    fn v_transmitting(&self) -> bool {
+        self.transmitting
+    }
+    fn v_tx_calls(&self) -> usize {
+        self.tx_calls
+    }
+    fn v_rx_calls(&self) -> usize {
+        self.rx_calls
+    }
+    fn v_tx(&self) -> &[u8] {
+        &self.tx[..self.tx_len]
+    }
+}
+
+fn step_bytes(state: State) {
+    logging(true);
+    reset_ring_log();
+    let p = any_params();
+    let mut st = any_station(p, state, 1);
+    kani::assume(inv_fdl(&st, 1));
+    kani::assume(st.pending_bytes <= 6);
+    let mut phy = KPhy::<6, 16>::any();
+    let now = any_instant();
+    // snapshot with the transmitting flag as the station will see it
+    let pre = snapshot(&st, &phy);
+    st.poll(now, &mut phy, &mut ());
+    // rx_calls counts the pending-bytes probe as well: compare transmissions only
+    assert!(phy.tx_calls <= 1, "C01/one-tx: at most one transmission is started per poll");
+    if pre.busy(now) {
+        assert!(phy.tx_calls == 0, "C01/busy: while a transmission is in progress the station does not transmit");
+    }
+    if phy.tx_calls == 1 {
+        let idle_us = now.total_micros() - pre.lba.unwrap().total_micros();
+        assert!((idle_us as u64) * rate() + rate() >= 33_000_000, "C01/sync-pause: every telegram starts at least 33 bit times after the end of the previous bus activity");
+        assert!(!pre.new_bytes(), "C01/idle-after-rx: nothing is sent in a poll in which newly received bytes became visible");
+    }
+    assert!(inv_fdl(&st, 1), "C05/inv: the representation invariant of the station is preserved by poll()");
+    kani::cover!(phy.rx_off > 0, "cover: bytes consumed from the receive buffer");
+    kani::cover!(phy.tx_calls == 1, "cover: a transmission is started");
+}
+
+l2_harness! {
+    #[kani::unwind(9)]
+    fn l2_bytes_listen_token_t() {
+        step_bytes(State::ListenToken { status_request: any_opt_addr(), collision_count: kani::any() })
+    }
+}
+
+l2_harness! {
+    #[kani::unwind(9)]
+    fn l2_bytes_active_idle_t() {
+        step_bytes(State::ActiveIdle { status_request: any_opt_addr(), new_previous_station: any_opt_addr(), collision_count: kani::any() })
+    }
+}
+
+l2_harness! {
+    #[kani::unwind(9)]
+    fn l2_bytes_await_status_response_t() {
+        step_bytes(State::AwaitStatusResponse { address: kani::any() })
+    }
+}
